@@ -17,7 +17,9 @@ CFG = {
             "flip, composed/decomposed, empty, doubled) on every format; KeyStore flows ImportECDSA/NewAccount/Unlock/Lock/Export/Import/Update/"
             "SignHashWithPassphrase/SignTxWithPassphrase/Delete judged step by step, incl. Unlock/TimedUnlock with a wrong passphrase on an ALREADY unlocked "
             "account (indefinitely and timed) (every file the keystore writes must carry its address); EncryptKey "
-            "output recomputed by the model; whole-file substitution (A's file overwritten by B's file / B re-encrypted under A's passphrase / B's file with A's address, "
+            "output recomputed by the model; Update over longer previous content (other scrypt n/p via a second KeyStore on the directory, indented, v1, pbkdf2 files: the file must be "
+            "exactly the new encoding); 6 goroutines encrypting / storing / updating / exporting concurrently with per-call n,p (every blob must carry its own parameters and open "
+            "with its own passphrase); whole-file substitution (A's file overwritten by B's file / B re-encrypted under A's passphrase / B's file with A's address, "
             "then Unlock, TimedUnlock, SignHash/TxWithPassphrase, Export, Update, Delete on A must fail or use A's key); read-side legacy files whose plaintext has the key's "
             "leading zero bytes stripped (31/30/29 bytes, every format, with and without address) and the repo's own test vectors must open to the original key; residual probe: files with the address member removed + IV alterations (outside the property, counted as residual:*). "
             "Non-trivial = the real code did not answer with an error (distinct inputs counted).",
